@@ -2144,6 +2144,11 @@ class MSSQLCompiler(compiler.SQLCompiler):
             return select._fetch_clause
 
     def _use_top(self, select):
+        # TOP is written into the columns clause of a SELECT; a compound
+        # SELECT (UNION etc.) has no such place, its limit has to be
+        # rendered after the ORDER BY like an offset
+        if isinstance(select, sql.expression.CompoundSelect):
+            return False
         return (select._offset_clause is None) and (
             select._simple_int_clause(select._limit_clause)
             or (
@@ -2196,6 +2201,14 @@ class MSSQLCompiler(compiler.SQLCompiler):
                 **kw,
             )
 
+        elif (
+            isinstance(select, sql.expression.CompoundSelect)
+            and select._has_row_limiting_clause
+        ):
+            raise exc.CompileError(
+                "MSSQL before 2012 can't apply LIMIT / OFFSET to a compound "
+                "SELECT; select from it as a subquery instead"
+            )
         else:
             return ""
 
